@@ -74,6 +74,13 @@ Proof.
     induction cs as [|c t IHc]; [reflexivity|]. cbn [flat_map map concat]. rewrite IHc. unfold enc_chunk, len.
     rewrite <- app_assoc. reflexivity.
   - (* SNamed *) intros id s IH v Hv. cbn [to_item enc wfv] in *. apply IH. exact Hv.
+  - (* SArrOpt *) intros fs IHfs o IHo v Hv. destruct v as [| | | | | | | | | |i v]; try discriminate.
+    destruct i as [|[|i]]; destruct v as [| | | | | |l| | | |]; try discriminate.
+    + cbn [to_item enc encode_item wfv] in *. destruct (IHfs l Hv) as [E L]. rewrite E, L. reflexivity.
+    + destruct l as [|x l]; [discriminate|]. cbn [to_item enc encode_item wfv] in *. split_ands.
+      destruct (IHfs l ltac:(assumption)) as [E L].
+      assert (Hl : len (to_items_sl fs l ++ [to_item o x]) = 1 + slen fs) by (rewrite len_app, L; unfold len; cbn [length]; lia).
+      rewrite Hl, flat_map_app, E. cbn [flat_map]. rewrite app_nil_r. rewrite IHo by assumption. reflexivity.
   - (* SNil *) intros l Hv. destruct l; [split; reflexivity|discriminate].
   - (* SCons *) intros s IHs r IHr l Hv. destruct l as [|v t]; [discriminate|].
     cbn [wfv_sl to_items_sl enc_sl flat_map slen] in *. split_ands.
@@ -191,6 +198,16 @@ Proof.
     + apply chunk_ok_of; [exact Hv|unfold two64; lia].
     + apply chunk64_chunk_ok. exact Hv.
   - (* SNamed *) intros id s IH Hs v Hv. cbn [to_item wfs wfv] in *. apply IH; assumption.
+  - (* SArrOpt *) intros fs IHfs o IHo Hs v Hv. cbn [wfs] in Hs. split_ands.
+    destruct v as [| | | | | | | | | |i v]; try discriminate.
+    destruct i as [|[|i]]; destruct v as [| | | | | |l| | | |]; try discriminate.
+    + cbn [to_item item_ok wfv] in *. rewrite IHfs by assumption.
+      rewrite (proj2 (proj1 (proj2 to_item_enc_all) fs l Hv)). apply andb_true_iff. split; [lia|reflexivity].
+    + destruct l as [|x l]; [discriminate|]. cbn [to_item item_ok wfv] in *. split_ands.
+      rewrite forallb_app. rewrite IHfs by assumption. cbn [forallb]. rewrite IHo by assumption.
+      assert (Hl : len (to_items_sl fs l ++ [to_item o x]) = 1 + slen fs)
+        by (rewrite len_app, (proj2 (proj1 (proj2 to_item_enc_all) fs l ltac:(assumption))); unfold len; cbn [length]; lia).
+      rewrite Hl. apply andb_true_iff. split; [lia|reflexivity].
   - (* SNil *) intros _ l Hv. destruct l; [reflexivity|discriminate].
   - (* SCons *) intros s IHs r IHr Hw l Hv. cbn [wfs_sl] in Hw. split_ands. destruct l as [|v t]; [discriminate|].
     cbn [wfv_sl to_items_sl forallb] in *. split_ands. rewrite IHs, IHr by assumption. reflexivity.
